@@ -253,6 +253,14 @@ class NakPdu(AbstractFileDirectiveBase):
                 f"invalid PDU directive type for NAK PDU: "
                 f"{nak_pdu.pdu_file_directive.directive_type}"
             )
+        if len(data) > nak_pdu.packet_len:
+            raise ValueError(
+                f"passed data with length {len(data)} longer than NAK PDU length "
+                f"{nak_pdu.packet_len}"
+            )
+        # The segment requests end where the PDU ends, before the CRC trailer if there is one.
+        if nak_pdu.pdu_file_directive.pdu_conf.crc_flag == CrcFlag.WITH_CRC:
+            data = data[: nak_pdu.packet_len - 2]
         current_idx = nak_pdu.pdu_file_directive.header_len
         if not nak_pdu.pdu_file_directive.pdu_header.large_file_flag_set:
             struct_arg_tuple = ("!I", 4)
